@@ -93,6 +93,25 @@ pub fn run(opts: &Opts, rep: &mut Report) {
         let mut rng = Rng::new(mix(&[opts.seed, opts.shard, idx, 15]));
         let case_id = format!("{}:{}:{}", opts.seed, opts.shard, idx);
         rep.count("cases");
+        // a panic inside the pattern API is a violation (attributed by its location), not a monitor crash
+        let res = crate::refm::caught(|| one_case(opts, idx, &mut rng, &case_id, &mut shared, rep));
+        if let Err(msg) = res {
+            shared = Matcher::default();
+            let loc = msg.rsplit(" @ ").next().unwrap_or("").to_owned();
+            if loc.starts_with("/repo/") {
+                rep.violation("C15", "panic-in-pattern-api", format!("panic@{loc}"), jobj! {"message" => msg, "case_id" => case_id.clone()});
+            } else {
+                rep.inconclusive(format!("monitor panicked outside the repository code: {msg}"));
+            }
+        }
+    }
+}
+
+fn one_case(opts: &Opts, idx: u64, rng: &mut Rng, case_id: &str, mut shared: &mut Matcher, rep: &mut Report) {
+    let case_id = case_id.to_owned();
+    let _ = opts;
+    {
+        let mut rng = rng.clone();
         let cfg = base_config(&mut rng);
         shared.config = cfg.clone();
         let natoms = if rng.chance(1, 10) { 0 } else { rng.range(1, 6) };
